@@ -49,6 +49,12 @@ impl ParseData for FromAttributesOptions {
     }
 
     fn parse_field(&mut self, field: &syn::Field) -> Result<()> {
+        // There is no identifier to pass on when reading from a list of attributes,
+        // so a field named `ident` is an ordinary field here.
+        if matches!(field.ident, Some(ref v) if v == "ident") {
+            return self.base.container.parse_field(field);
+        }
+
         self.base.parse_field(field)
     }
 
